@@ -28,6 +28,7 @@ EDGES = ['fEq', 'null', 'periodic']
 class Consts:
     CN0, kN0, deltaRN0, rp = Fr(1, 10), Fr(11, 200), Fr(29, 10), Fr(73, 10)
     CTi, kTi, deltaRTi = Fr(1), Fr(27586, 100000), Fr(145, 100)
+    CTe, kTe, deltaRTe = Fr(3, 2), Fr(1, 5), Fr(2)          # deliberately different from the ion values
 
 
 def vbreaks(path, ncells, family='graded'):
@@ -85,7 +86,7 @@ def work(item):
 
             class FC:
                 pass
-            for k_ in ('CN0', 'kN0', 'deltaRN0', 'rp', 'CTi', 'kTi', 'deltaRTi'):
+            for k_ in ('CN0', 'kN0', 'deltaRN0', 'rp', 'CTi', 'kTi', 'deltaRTi', 'CTe', 'kTe', 'deltaRTe'):
                 setattr(FC, k_, float(getattr(Consts, k_)))
             va = adv.VParallelAdvection([None, None, None, pts], fb, FC, edge=edge)
             f = np.array([float(x) for x in data])
@@ -258,6 +259,7 @@ def main():
             items.append((1, 3, 'nu', edge, 2, None))
             items.append((3, 3, 'nu', edge, 1, None))
             items.append((4, 2, 'nu', edge, 1, None))
+    items.append((3, 3, 'cu', 'periodic', 2, None))          # shifts of up to two domain widths of either sign
     items.append((3, 3, 'cu', 'fEq', 1, CANARIES[0]))
     items.append((3, 3, 'cu', 'null', 1, CANARIES[1]))
     caught = {}
